@@ -150,9 +150,16 @@ fn resolve_promise(
     value: JsValue,
 ) -> Result<(), JsError> {
     // Check if value is a thenable (another promise)
-    if let JsValue::Object(obj) = &value
+    // (the inner promise's state is cloned out so that the object itself is no longer
+    // borrowed when handlers run below: a handler may write to that promise object)
+    let adopted_state = if let JsValue::Object(obj) = &value
         && let ExoticObject::Promise(state) = &obj.borrow().exotic
     {
+        Some(state.clone())
+    } else {
+        None
+    };
+    if let Some(state) = adopted_state {
         // If the value is a promise, adopt its state
         let state_ref = state.borrow();
         match state_ref.status {
